@@ -71,50 +71,87 @@ def random_edits(rnd, additions):
 def history(rnd, hist_id, length):
     ops = [{'op': 'env.processor', 'mode': 'default'}, {'op': 'form.seed', 'seed': hist_id}, {'op': 'oss.reset'}]
     shape = p12.make_shape(rnd)
+    directed = rnd.random() < 0.8
     nbase = rnd.choice([2, 2, 3, 4])
+    kinds = []
     for _ in range(nbase):
         ops.append({'op': 'oss.op', 'k': 'base'})
+        kinds.append('base')
     for i in range(nbase):
-        if rnd.random() < 0.9:
+        if directed or rnd.random() < 0.9:
             ops.append({'op': 'oss.op', 'k': 'connect', 'p': i, 'schema': doc_schema(rnd, shape if rnd.random() < 0.8 else p12.make_shape(rnd))})
-    npict = nbase
+
+    def pick(kind=None):
+        cand = [i for i, x in enumerate(kinds) if kind is None or x == kind]
+        return rnd.choice(cand) if cand else rnd.randrange(len(kinds) + 1)
+
+    def add_operation():
+        if directed and rnd.random() < 0.85:
+            a = pick('op') if 'op' in kinds and rnd.random() < 0.6 else pick('base')
+            b = pick()
+            if a == b:
+                b = (a + 1) % len(kinds)
+        else:
+            a, b = rnd.randrange(len(kinds)), rnd.randrange(len(kinds))
+        ops.append({'op': 'oss.op', 'k': 'operation', 'p1': a, 'p2': b})
+        if a != b:
+            kinds.append('op')
+
+    def init(p):
+        like = rnd.choice([0, 0.4, 0.8])
+        pairs = [[i, i] for i in range(len(shape)) if rnd.random() < like] + [[rnd.randrange(10), rnd.randrange(10)] for _ in range(rnd.choice([0, 0, 0, 1]))]
+        ops.append({'op': 'oss.op', 'k': 'init', 'p': p, 'type': rnd.choice(['merge', 'merge', 'synt']) if directed else rnd.choice(['merge', 'synt', 'synt']), 'pairs': pairs})
+
     for _ in range(rnd.choice([1, 2, 3])):
-        ops.append({'op': 'oss.op', 'k': 'operation', 'p1': rnd.randrange(npict), 'p2': rnd.randrange(npict)})
-        npict += 1
+        add_operation()
+    if directed:
+        for i, x in enumerate(kinds):
+            if x == 'op':
+                init(i)
+        if rnd.random() < 0.5:
+            ops.append({'op': 'oss.op', 'k': 'executeall'})
+        else:
+            for i, x in enumerate(kinds):
+                if x == 'op':
+                    ops.append({'op': 'oss.op', 'k': 'execute', 'p': i, 'auto': False})
     for _ in range(length):
         r = rnd.random()
-        p = rnd.randrange(npict + 1)
+        anyp = rnd.randrange(len(kinds) + 1)
         if r < 0.22:
-            ops.append({'op': 'oss.op', 'k': 'execute', 'p': p, 'auto': rnd.random() < 0.3})
+            ops.append({'op': 'oss.op', 'k': 'execute', 'p': pick('op') if directed and rnd.random() < 0.85 else anyp, 'auto': rnd.random() < 0.3})
         elif r < 0.27:
             ops.append({'op': 'oss.op', 'k': 'executeall'})
-        elif r < 0.42:
-            like = rnd.choice([0, 0.4, 0.8])
-            pairs = [[i, i] for i in range(len(shape)) if rnd.random() < like] + [[rnd.randrange(10), rnd.randrange(10)] for _ in range(rnd.choice([0, 0, 1]))]
-            ops.append({'op': 'oss.op', 'k': 'init', 'p': p, 'type': rnd.choice(['merge', 'synt', 'synt']), 'pairs': pairs})
+        elif r < 0.35:
+            init(pick('op') if directed and rnd.random() < 0.85 else anyp)
         elif r < 0.66:
-            ops.append({'op': 'oss.op', 'k': 'edit', 'p': p, 'edits': random_edits(rnd, additions=rnd.random() < 0.5), 'save': rnd.random() < 0.6, 'open': rnd.random() < 0.3})
+            if directed and rnd.random() < 0.9:
+                on_result = rnd.random() < 0.4
+                p = pick('op' if on_result else 'base')
+                ops.append({'op': 'oss.op', 'k': 'edit', 'p': p, 'edits': random_edits(rnd, additions=on_result or rnd.random() < 0.3), 'save': rnd.random() < 0.7, 'open': rnd.random() < 0.5})
+            else:
+                ops.append({'op': 'oss.op', 'k': 'edit', 'p': anyp, 'edits': random_edits(rnd, additions=rnd.random() < 0.5), 'save': rnd.random() < 0.6, 'open': rnd.random() < 0.3})
         elif r < 0.74:
-            ops.append({'op': 'oss.op', 'k': 'save', 'p': p})
-        elif r < 0.78:
-            ops.append({'op': 'oss.op', 'k': 'close', 'p': p})
-        elif r < 0.82:
-            ops.append({'op': 'oss.op', 'k': 'open', 'p': p})
+            ops.append({'op': 'oss.op', 'k': 'save', 'p': anyp})
+        elif r < 0.77:
+            ops.append({'op': 'oss.op', 'k': 'close', 'p': anyp})
+        elif r < 0.81:
+            ops.append({'op': 'oss.op', 'k': 'open', 'p': anyp})
         elif r < 0.87:
-            ops.append({'op': 'oss.op', 'k': 'operation', 'p1': rnd.randrange(npict), 'p2': rnd.randrange(npict)})
-            npict += 1
+            add_operation()
+            if directed and kinds[-1] == 'op' and rnd.random() < 0.8:
+                init(len(kinds) - 1)
         elif r < 0.90:
             ops.append({'op': 'oss.op', 'k': 'base'})
-            npict += 1
-            ops.append({'op': 'oss.op', 'k': 'connect', 'p': npict - 1, 'schema': doc_schema(rnd, shape)})
+            kinds.append('base')
+            ops.append({'op': 'oss.op', 'k': 'connect', 'p': len(kinds) - 1, 'schema': doc_schema(rnd, shape)})
         elif r < 0.94:
-            ops.append({'op': 'oss.op', 'k': 'erase', 'p': p if rnd.random() < 0.9 else {'raw': 424242}})
+            ops.append({'op': 'oss.op', 'k': 'erase', 'p': (len(kinds) - 1 if rnd.random() < 0.4 else anyp) if rnd.random() < 0.9 else {'raw': 424242}})
         elif r < 0.97:
             ops.append({'op': 'oss.op', 'k': 'reload', 'seed': rnd.randrange(1 << 30)})
         else:
-            ops.append({'op': 'oss.op', 'k': 'connect', 'p': p, 'schema': doc_schema(rnd, shape)})
+            ops.append({'op': 'oss.op', 'k': 'connect', 'p': anyp if not directed or rnd.random() < 0.3 else pick('base'), 'schema': doc_schema(rnd, shape)})
     ops.append({'op': 'oss.drop'})
-    return core.case(ops, kind='history')
+    return core.case(ops, kind='history', directed=directed)
 
 
 def structural(snap):
@@ -174,6 +211,13 @@ def formal(data, tracked_only=True):
     return [(it['alias'], it['type'], it['def']) for it in data['items'] if it.get('tracked') or not tracked_only]
 
 
+def fingerprint(data):
+    """formal content of a document: what the property calls the formal content of a source"""
+    if data is None:
+        return None
+    return tuple(sorted((it['alias'], it['type'], it['def']) for it in data['items']))
+
+
 def skeleton(snap):
     return {pid: (p['parents'], p['is_operation'], p.get('op_type'), p.get('pairs'), p['pos'], p.get('doc'), p.get('translations')) for pid, p in snap['picts'].items()}
 
@@ -185,6 +229,8 @@ def judge(res, cs, cr):
     executed = False
     nontrivial = False
     trace = []
+    foreign = set()      # operation pictograms whose document was attached by the user (not produced by the operation)
+    built_from = {}      # operation -> formal fingerprints of its parents' announced content when its result was (re)built
     for idx, (op, ev) in enumerate(zip(cs['ops'], cr.events)):
         if op['op'] not in ('oss.op', 'oss.reset') or 'snap' not in ev:
             continue
@@ -193,6 +239,7 @@ def judge(res, cs, cr):
         trace.append({x: y for x, y in op.items() if x not in ('op', 'schema', 'edits')})
         res.cover('op:' + k)
         bad = structural(snap)
+        res.count('judged', 4 * len(snap['picts']))
         bad = [(f'structure-{a}', b) for a, b in bad]
         before = prev
         prev = snap
@@ -221,7 +268,12 @@ def judge(res, cs, cr):
                 a1, a2 = ev['args']
                 if a1 != a2 and str(a1) in before['picts'] and str(a2) in before['picts']:
                     bad.append(('operation-refused', f'InsertOperation({a1}, {a2}) on two distinct existing pictograms refused'))
-            if k == 'execute' and ret is True and pid is not None:
+            if k == 'connect' and ret is True and pid is not None and str(pid) in before['picts'] and before['picts'][str(pid)]['is_operation']:
+                foreign.add(str(pid))
+                res.cover('connect:document-attached-to-operation')
+            if k == 'execute' and ret is True and pid is not None and str(pid) in foreign:
+                res.count('unspecified')
+            elif k == 'execute' and ret is True and pid is not None:
                 executed = True
                 res.cover('execute:ok')
                 p = snap['picts'][str(pid)]
@@ -241,21 +293,30 @@ def judge(res, cs, cr):
                         bad += additions_check(res, old, p['data'], bp['translations'], p['translations'], pid)
             if k in ('edit', 'save', 'close') and snap['announcements'] > before['announcements'] and executed:
                 nontrivial = True
-        # F2: done => fresh w.r.t. announced parents
+        # F2: an operation that reports done was built from the formal content its parents last announced
         for pid, p in snap['picts'].items():
-            if p['status'] != 'done' or 'data' not in p:
+            if p['status'] != 'done' or 'data' not in p or pid in foreign:
+                built_from.pop(pid, None)
                 continue
-            fresh = (ev.get('fresh_announced') or {}).get(pid)
-            if fresh is None:
+            parents = [snap['picts'].get(str(x), {}) for x in p['parents']]
+            now = [fingerprint(x.get('announced')) for x in parents]
+            was = before['picts'].get(pid) if before is not None else None
+            rebuilt = (was is None or was['status'] != 'done' or was.get('data', {}).get('items') != p['data']['items'] or pid not in built_from
+                       or (k == 'execute' and ret is True and str(ev.get('pid')) == pid))
+            if rebuilt:
+                built_from[pid] = now
+                continue
+            if not all(x.get('connected') for x in parents):
+                # a parent document the schema is not connected to cannot announce anything to it; staleness is
+                # detected from the stored hash when the document is opened again
                 res.count('unspecified')
                 continue
             res.count('judged')
             res.cover('done-checked-against-announced-parents')
-            if 'result' not in fresh:
-                bad.append(('done-but-not-synthesisable', f"operation {pid} reports done but its parents' announced schemas cannot be synthesised with its options {p.get('pairs')}"))
-            elif formal(p['data']) != formal(fresh['result'], False):
-                bad.append(('done-but-stale', f"operation {pid} reports done but the inherited part of its result {formal(p['data'])} differs from the synthesis of its parents' announced schemas "
-                                              f"{formal(fresh['result'], False)}; parents {p['parents']}"))
+            if now != built_from[pid]:
+                which = [x for x, (a, b) in zip(p['parents'], zip(now, built_from[pid])) if a != b]
+                changed = [sorted(set(a or ()) ^ set(b or ())) for a, b in zip(now, built_from[pid]) if a != b]
+                bad.append(('done-but-stale', f"operation {pid} still reports done although the formal content announced by its parent(s) {which} changed since it was built: {changed[:1]}"))
         res.count('snapshots')
         if bad:
             what, msg = bad[0]
@@ -279,10 +340,13 @@ def additions_check(res, old, new, old_tr, new_tr, pid):
     if len(old_add) != len(new_add):
         return [('additions-lost', f"result of {pid} had user additions {[(a['alias'], a['def']) for a in old_add]}, after re-execution {[(a['alias'], a['def']) for a in new_add]}")]
     umap = {}
+    ambiguous = set()        # an old result constituent that stood for several operand constituents which now have different images
     for i in range(min(len(old_tr), len(new_tr))):
         nt = {k: v for k, v in new_tr[i]}
         for k, v in old_tr[i]:
             if k in nt:
+                if v in umap and umap[v] != nt[k]:
+                    ambiguous.add(v)
                 umap[v] = nt[k]
     old_alias = {it['uid']: it['alias'] for it in old['items']}
     new_alias = {it['uid']: it['alias'] for it in new['items']}
@@ -293,7 +357,7 @@ def additions_check(res, old, new, old_tr, new_tr, pid):
     forward = False
     for pos, (a, b) in enumerate(zip(old_add, new_add)):
         mentioned = rslex.mentioned(a['def'])
-        if any(m in old_names and m not in amap for m in mentioned):
+        if any(m in old_names and m not in amap for m in mentioned) or mentioned & {old_alias[u] for u in ambiguous if u in old_alias}:
             res.count('unspecified')      # mentions an inherited constituent that has no image any more
             continue
         later = {x['alias'] for x in old_add[pos + 1:]}
